@@ -149,6 +149,8 @@ func c20Forms() []formCase {
 		"literal": `"A"`, "const": "ConstS", "concat": `"A" + ""`, "raw-string": "`A`", "spread": "Names...", "var": "NameVar",
 		"star-and-name": `"*", "A"`, "raw-star": "`*`", "paren": `("A")`, "conversion": `string("A")`, "dup": `"A", "A"`,
 		"unknown": `"Nope"`, "empty": `""`, "const-star": "ConstStar",
+		"dup-longer-than-struct": `"A", "P", "A"`, "dup-four": `"A", "A", "A", "A"`, "star-twice": `"*", "*"`, "name-then-star": `"A", "*"`,
+		"all-then-dup-last": `"A", "P", "P"`, "unknown-after-all": `"A", "P", "Nope"`, "five-names": `"P", "A", "P", "A", "P"`,
 	}
 	for _, k := range sortedStrKeys(names) {
 		pre := ""
